@@ -95,6 +95,26 @@ ClassMaps == { << <<Leaf(q[1]), Leaf(q[2])>>, <<Leaf(q[2]), Leaf(q[1])>> >> : q 
 FirstLeaf == Leaf(CHOOSE s \in LeafS : TRUE)
 ClassCtxs == { Node(c, IF Ar(c) = 1 THEN <<Hole>> ELSE <<Hole, FirstLeaf>>, [j \in 1..Na(c) |-> "a"]) : c \in OuterSlots } \cup
              { Node(c, <<FirstLeaf, Hole>>, [j \in 1..Na(c) |-> "a"]) : c \in OuterSlots \cap SlotsAr2 }
+\* ---- mixed universe: pool sums as outer class over class slots and as nested argument of class slots;
+\* maps that contain a summation index *and* a free symbol (the index part must not matter, the rest
+\* must be applied), in xreplace form and in subs(dict) form
+MixPools == { <<"1", "2">>, <<"2">> }
+MixInner == { Pool(Node("f", <<Leaf(s), Leaf("i")>>, <<>>), << <<"i", p>> >>) : s \in LeafS, p \in MixPools }
+MixArgs(c) == IF Ar(c) = 1 THEN { <<Leaf("i")>> }
+              ELSE { <<Leaf(s), Leaf("i")>> : s \in LeafS } \cup { <<Leaf("i"), Leaf(s)>> : s \in LeafS }
+MixOuter == UNION { { Pool(Node(c, args, att), << <<"i", p>> >>) :
+                        args \in MixArgs(c), att \in [1..Na(c) -> AttrLabels], p \in MixPools } : c \in OuterSlots }
+MixNested == UNION { { [o EXCEPT !.a[pos] = q] : o \in NodesOver(c, ClsLeaves), pos \in 1..Ar(c), q \in MixInner }
+                     : c \in OuterSlots }
+MixShadow == { Pool(Node("g", <<Leaf("i"), q>>, <<>>), << <<"i", <<"2", "3">>>> >>) : q \in MixInner }
+MixInit == MixInner \cup MixOuter \cup MixNested \cup MixShadow
+MixRepl == { Leaf("w"), Node("h", <<Leaf("w")>>, <<>>) }
+MixMaps == { << <<Leaf("i"), Val("3")>>, <<Leaf(s), r>> >> : s \in LeafS, r \in MixRepl } \cup
+           { << <<Leaf(s), r>>, <<Leaf("i"), Leaf("w")>> >> : s \in LeafS, r \in MixRepl } \cup
+           { << <<Leaf("i"), Val("3")>> >> }
+MixPairs == { <<Leaf(s), r>> : s \in LeafS, r \in MixRepl } \cup { <<Leaf("i"), Val("3")>>, <<Leaf("i"), Leaf("w")>> }
+NoMaps == {}
+
 ClassVaryArgs == ClsLeaves \cup {Leaf("w")}
 ClassVaryAttrs == AttrLabels
 NoLabels == {}
